@@ -33,6 +33,10 @@ _FAMILY_A = {
   "C05": "constraint assembly (row builders)",
   "C07": "sensor stages and energy",
   "C08": "integrators and state advance",
+  "C22": "the Jacobian kernels (support.jac, constraint-row Jacobians, tendon and actuator-moment Jacobians) - only their binding, index-space, batching and com-frame discipline; the derivative identity J*qvel = velocity is numeric and NOT decided",
+  "C27": "the velocity-derivative kernels of derivative.py (actuation, damping, fluid, tendon, Coriolis) - binding, index-space, batching and com-frame discipline only; correctness of the derivative values is numeric and NOT decided (their flag gating is decided under C32)",
+  "C39": "the contact wrench decode kernel; plus: every efc.force cell it reads lies in world contact.worldid[cid] at a row of contact.efc_address[cid, .] of the same requested contact (R-RECORD.2). The decode arithmetic (pyramid/elliptic formulas, frame rotation) is NOT decided",
+  "C40": "the flex kernels (flex vertex/edge kinematics, flex passive forces, flex constraint rows, flex collision) - 33 kernels; plus complete, unconditional contact-slot and constraint-row records in the flex writers",
 }
 for _p, _w in _FAMILY_A.items():
   CLAIMED[_p] = {
@@ -166,14 +170,10 @@ NOT_APPLICABLE = {
   "C18": "equivalence of broadphases depends on geometric conservativeness of numeric filters and sort/scan arithmetic; a sibling text-diff of the NXN/SAP kernels would alarm on harmless refactors",
   "C20": "orthonormality, signed distance and midpoint are numeric results of closed-form/GJK code; no static argument bounds them",
   "C21": "SPD-ness and Mx=b residuals are numeric; layout sentinels of the factor are covered structurally under C02",
-  "C22": "derivative identities between Jacobians and positions are numeric; index discipline of the same kernels is decided under C05",
-  "C27": "analytic-derivative correctness is numeric (finite-difference comparison is testing, not static analysis)",
   "C28": "correctness of a flood fill over a runtime graph; exhaustive small-graph enumeration would be model checking/testing, a different family",
   "C29": "temporal sleep/wake behaviour over histories and thread interleavings of _wake_tree; R-RACE lists those kernels as an unverified idiom but cannot decide that every interleaving yields MuJoCo's wake set",
   "C34": "nearest-hit ray geometry is numeric",
   "C35": "per-pixel agreement of render and ray is numeric",
-  "C39": "numeric decode of contact wrenches (index guards of the same code are covered by C17)",
-  "C40": "numeric flex parity; the flex kernels' world/batch/race/capacity discipline is decided under C09-C11, C16, C17",
 }
 
 PENDING = {}
